@@ -262,6 +262,11 @@ func callExprAt(fd ast.Node, pos token.Pos) *ast.CallExpr {
 // outerCase returns the label of the outermost case clause (of a switch whose
 // cases are types or opcode constants) containing pos: "case *ast.IfExpression".
 func outerCase(p *Program, fn *ssa.Function, pos token.Pos) string {
+	return outerCaseN(p, fn, pos, 3)
+}
+
+// outerCaseN is outerCase with at most max case expressions in the label (0: all).
+func outerCaseN(p *Program, fn *ssa.Function, pos token.Pos, max int) string {
 	root := fn
 	for root.Parent() != nil {
 		root = root.Parent()
@@ -287,8 +292,8 @@ func outerCase(p *Program, fn *ssa.Function, pos token.Pos) string {
 		for _, e := range cc.List {
 			parts = append(parts, types.ExprString(e))
 		}
-		if len(parts) > 3 {
-			parts = append(parts[:3], "…")
+		if max > 0 && len(parts) > max {
+			parts = append(parts[:max], "…")
 		}
 		label = "case " + strings.Join(parts, ",")
 		return false
